@@ -2220,7 +2220,11 @@ func (in *Interp) typesModel(f *VOpaque, args []Value, org string, t types.Type)
 	case "extfunc:go/types.Default":
 		return args[0], true
 	case "extfunc:go/types.Unalias":
-		// alias types are not part of the abstract input space: every type is its own unaliased form
+		// a value this path established to be an alias (a successful *types.Alias assertion) has a target that is another
+		// type value; every other type is its own unaliased form
+		if o, ok := args[0].(*VOpaque); ok && o.Kind == "*types.Alias" {
+			return o.attr("Unalias", func() Value { return &VOpaque{Origin: "types.Unalias(" + o.Origin + ")"} }), true
+		}
 		return args[0], true
 	case "extfunc:go/types.Identical":
 		if args[0] == args[1] {
